@@ -233,6 +233,14 @@ def cli_cases(ctx):
     cases.append(("hand", t4, {"category": "atom_site"}, False))  # no mode: usage
     cases.append(("hand", t4, {"category": "atom_site", "copy_from": "label_asym_id"}, False))  # incomplete mode
     cases.append(("hand", t4, {"category": "atom_site", "copy_from": "label_asym_id", "copy_to": "new_item"}, False))
+    # documents that do not end in a line end (and an empty one), with requests that leave the document untouched: the tool
+    # writes exactly what the library returns, i.e. the content as it is
+    # (no CRLF variant: the tool reads its input in text mode, so "the input file's content" it hands to the library has
+    # universal newlines already - comparing with the raw bytes would demand more than the statement does)
+    for doc in (t4.rstrip("\n"), MIN_DOC.rstrip("\n"), "", "data_only", t4 + "\n\n"):
+        cases.append(("no-final-newline", doc, {"category": "nope", "copy_from": "label_asym_id", "copy_to": "auth_asym_id"}, False))
+        cases.append(("no-final-newline", doc, {"category": "atom_site", "replace": "nope", "values": "ABCD"}, False))
+        cases.append(("no-final-newline", doc, {"category": "atom_site", "copy_from": "label_asym_id", "copy_to": "auth_asym_id"}, False))
     cases.append(("missing-input", t4, {"category": "atom_site", "copy_from": "label_asym_id", "copy_to": "auth_asym_id"}, True))
     # output path = input path (in-place edit), literally and under another spelling
     for how in ("same", "alias"):
